@@ -9,7 +9,7 @@ ASSUMPTIONS = [
     "schedule concrete (gap 1 tick, timeout 100 ticks) - the schedule quantifier belongs to C01/C14",
 ]
 STUBS = ["VClock/fake_fail_after", "ScriptedReadStream", "RecordingWriteStream", "format stub", "uuid4 counter"]
-OUTSIDE = ["error message strings longer than 1 character", "error data beyond the listed shapes"]
+OUTSIDE = ["symbolic error message strings longer than 2 characters (longer messages: lengths from the source-constant cases <= 70000 with five concrete fill patterns)", "error data beyond the listed shapes"]
 
 
 def obligations(tier, ctx):
@@ -31,6 +31,18 @@ def obligations(tier, ctx):
     for dsel in (0, 2):
         obs.append(Ob(name=f"api_d{dsel}", params=[("code", "int"), ("leaf", "int")], pre=[],
                       call=f"H.api(code, {dsel}, leaf)", backend="F", timeout=180, family="api"))
+    # size dimension (lengths straddling every integer constant of the source tree; fill patterns concrete)
+    from symcheck import consts
+    nsz = len(consts.size_cases(70000))
+    for code in (-32601, -32603):
+        for pat in ((0, 2) if tier == "quick" else (0, 1, 2, 3, 4)):
+            obs.append(Ob(name=f"process_long_c{abs(code)}_p{pat}", params=[("k", "int")], pre=[f"0 <= k < {nsz}"], call=f"H.process_long({code}, k, {pat}, False)",
+                          backend="P", timeout=300, family="size: error message of every length c-1, c, c+1 for the integer constants c of the source"))
+    for pat in ((2,) if tier == "quick" else (0, 2, 4)):
+        obs.append(Ob(name=f"process_longdata_p{pat}", params=[("k", "int")], pre=[f"0 <= k < {nsz}"], call=f"H.process_long(-32603, k, {pat}, True)",
+                      backend="P", timeout=300, family="size: error data of every length c-1, c, c+1"))
+        obs.append(Ob(name=f"api_long_p{pat}", params=[("k", "int")], pre=[f"0 <= k < {nsz}"], call=f"H.api_long(-32602, k, {pat})",
+                      backend="P", timeout=300, family="size: error message of every length c-1, c, c+1 for the integer constants c of the source"))
     for n in discover(ctx):
         obs.append(Ob(name="helper_" + n, params=[("code", "int")], pre=[], call=f"H.helper({n!r}, code)", backend="F", timeout=240, family="helper"))
     return obs
